@@ -37,6 +37,8 @@ type Method struct {
 	ID     uint32
 	Return signature.Type
 	Params []Parameter
+	// explicitID is set when the IDL gives the uid (0 included)
+	explicitID bool
 }
 
 // Meta translate the method signature into a MetaMethod use in a
@@ -90,6 +92,8 @@ type Signal struct {
 	Name   string
 	ID     uint32
 	Params []Parameter
+	// explicitID is set when the IDL gives the uid (0 included)
+	explicitID bool
 }
 
 // Tuple returns a TupleType used to generate marshall/unmarshall
@@ -134,6 +138,8 @@ type Property struct {
 	Name   string
 	ID     uint32
 	Params []Parameter
+	// explicitID is set when the IDL gives the uid (0 included)
+	explicitID bool
 }
 
 // Tuple returns a TupleType used to generate marshall/unmarshall
